@@ -561,7 +561,9 @@ fn anchored_layer(rg: &Path, tier: Tier) -> AnchoredResult {
         ("", vec!["R"]), ("", vec!["./R"]), ("", vec!["R/"]), ("", vec!["R", "Q"]), ("", vec!["Q", "R"]), ("", vec!["ABS:R"]), ("", vec!["R/S"]),
         ("", vec!["R/S", "Q"]), ("", vec!["Q", "R/S"]), ("", vec![]), ("R", vec![]), ("R", vec!["S"]), ("R/S", vec![]), ("", vec!["ABS:R", "Q"]), ("R", vec![".", "../Q"]),
     ];
-    let sources = ["ignore", "gitignore"];
+    // (the third source is a file given with --ignore-file, whose rules are
+    // relative to the current directory: used where that is P)
+    let sources = ["ignore", "gitignore", "ignore-file"];
     // work items
     // (rule set, roots, source, --hidden)
     let mut work: Vec<(usize, usize, usize, bool)> = vec![];
@@ -569,6 +571,9 @@ fn anchored_layer(rg: &Path, tier: Tier) -> AnchoredResult {
         for ro in 0..root_sets.len() {
             for si in 0..sources.len() {
                 if si == 1 && (ri + ro) % tier.pick(3, 1) != 0 {
+                    continue;
+                }
+                if si == 2 && (!root_sets[ro].0.is_empty() || (ri + ro) % tier.pick(2, 1) != 0) {
                     continue;
                 }
                 work.push((ri, ro, si, false));
@@ -700,15 +705,23 @@ fn anchored_layer(rg: &Path, tier: Tier) -> AnchoredResult {
                         let lines = &rule_sets[ri];
                         let (c, r) = &root_sets[ro];
                         let text: String = lines.iter().map(|l| format!("{}\n", l)).collect();
+                        let rules_file = scratch.path.join("extra.rules");
                         if si == 0 {
                             std::fs::write(pdir.join(".ignore"), &text).unwrap();
-                        } else {
+                        } else if si == 1 {
                             std::fs::create_dir_all(pdir.join(".git")).unwrap();
                             std::fs::write(pdir.join(".gitignore"), &text).unwrap();
+                        } else {
+                            std::fs::write(&rules_file, &text).unwrap();
                         }
                         cwd = c;
                         roots = r.clone();
-                        extra = if hidden { vec!["--hidden".to_string()] } else { vec![] };
+                        let mut ex: Vec<String> = if hidden { vec!["--hidden".to_string()] } else { vec![] };
+                        if si == 2 {
+                            ex.push("--ignore-file".to_string());
+                            ex.push(rules_file.display().to_string());
+                        }
+                        extra = ex;
                         // a hidden entry (a name starting with a dot, strictly
                         // below the root) is skipped unless --hidden is given
                         let is_hidden = |f: &str, root: &str| -> bool {
@@ -721,7 +734,7 @@ fn anchored_layer(rg: &Path, tier: Tier) -> AnchoredResult {
                             .filter(|(f, r)| !anchored_ignored(lines, f, r))
                             .map(|(f, _)| f.to_string())
                             .collect();
-                        label = format!("P/.{} {:?}{} | cwd P/{} | roots {:?}", sources[si], lines, if hidden { " --hidden" } else { "" }, c, r);
+                        label = format!("{} {:?}{} | cwd P/{} | roots {:?}", if si == 2 { "--ignore-file".to_string() } else { format!("P/.{}", sources[si]) }, lines, if hidden { " --hidden" } else { "" }, c, r);
                         if want.len() < under(cwd, &roots).len() {
                             local.nontrivial += 1;
                         }
@@ -959,7 +972,7 @@ pub fn run(args: &Args) -> ! {
     ev.set("scenarios", n);
     ev.set(
         "rule",
-        "tree P/R/S (P above the search root, R the root, S a subdirectory) with probe entries t.x (file), .h (hidden file), d/ (directory with a file) and controls in R and S; .git in {nowhere, P, R}. Rule = (source in {-g, .rgignore, .ignore, .gitignore, .git/info/exclude, global git ignore, --ignore-file}, placement in {P,R,S} where meaningful, ignore | whitelist, probe). Scenarios: every single rule and every conflicting pair on the same probe (thorough: half of all triples on the file probe) x repository placement, with and without --no-require-git; every single rule x each of --hidden --no-ignore --no-ignore-vcs/-dot/-exclude/-global/-parent/-files --no-require-git -u -uu -uuu alone and in pairs; -t / -T with --type-add; --max-depth 0..2; roots '.', relative, absolute, a subdirectory (so that R and P are parents), an explicit file plus a directory. Observation: `rg --files --sort path`. Oracle: a reference model of the documented precedence (overrides; .rgignore > .ignore > .gitignore > .git/info/exclude > global > --ignore-file, nearest directory first, git sources gated by the repository and --no-require-git, parents by --no-ignore-parent; then types; then hidden unless whitelisted; explicit paths always). Layer 2 (rules containing a slash, hidden names): 22 rule sets in P/.ignore or P/.gitignore anchored at P (/R/t.x, /R/S/t.x, /R/S/U/t.x, R/S/t.x, directory forms, rules for a second tree Q, blanket t.x with an anchored re-include, rules for hidden names .h.x / a hidden directory, run with and without --hidden; hidden entries incl. a name ending in a dot must be skipped without --hidden) x 15 ways of naming the roots (R, ./R, R/, absolute, R Q, Q R, R/S Q, from inside R and R/S, . ../Q ...) and 6 -g glob sets with a slash x 6 root spellings, each listed with --sort path, -j1 and -j2 — the latter under the replay scheduler, every schedule with at most one preemption (budget 60 per case) when there are several roots; reference: a rule with a slash matches exactly its path below the directory of its ignore file (below the current directory for -g), whatever the roots, their order, the depth of the entry and the schedule. distinct_nontrivial = scenarios in which the model filters at least one file.",
+        "tree P/R/S (P above the search root, R the root, S a subdirectory) with probe entries t.x (file), .h (hidden file), d/ (directory with a file) and controls in R and S; .git in {nowhere, P, R}. Rule = (source in {-g, .rgignore, .ignore, .gitignore, .git/info/exclude, global git ignore, --ignore-file}, placement in {P,R,S} where meaningful, ignore | whitelist, probe). Scenarios: every single rule and every conflicting pair on the same probe (thorough: half of all triples on the file probe) x repository placement, with and without --no-require-git; every single rule x each of --hidden --no-ignore --no-ignore-vcs/-dot/-exclude/-global/-parent/-files --no-require-git -u -uu -uuu alone and in pairs; -t / -T with --type-add; --max-depth 0..2; roots '.', relative, absolute, a subdirectory (so that R and P are parents), an explicit file plus a directory. Observation: `rg --files --sort path`. Oracle: a reference model of the documented precedence (overrides; .rgignore > .ignore > .gitignore > .git/info/exclude > global > --ignore-file, nearest directory first, git sources gated by the repository and --no-require-git, parents by --no-ignore-parent; then types; then hidden unless whitelisted; explicit paths always). Layer 2 (rules containing a slash, hidden names): 22 rule sets in P/.ignore, P/.gitignore or a file given with --ignore-file (rules relative to the current directory P), anchored at P (/R/t.x, /R/S/t.x, /R/S/U/t.x, R/S/t.x, directory forms, rules for a second tree Q, blanket t.x with an anchored re-include, rules for hidden names .h.x / a hidden directory, run with and without --hidden; hidden entries incl. a name ending in a dot must be skipped without --hidden) x 15 ways of naming the roots (R, ./R, R/, absolute, R Q, Q R, R/S Q, from inside R and R/S, . ../Q ...) and 6 -g glob sets with a slash x 6 root spellings, each listed with --sort path, -j1 and -j2 — the latter under the replay scheduler, every schedule with at most one preemption (budget 60 per case) when there are several roots; reference: a rule with a slash matches exactly its path below the directory of its ignore file (below the current directory for -g), whatever the roots, their order, the depth of the entry and the schedule. distinct_nontrivial = scenarios in which the model filters at least one file.",
     );
     ev.set("samples", json!([{"rules": "[.ignore@R !t.x, .gitignore@S t.x]", "git": "R", "flags": ["--no-ignore-dot"]}]));
     ev.assume("patterns are plain names or literal paths; glob semantics are C04/C12's subject");
